@@ -48,10 +48,21 @@ type Space struct {
 	NoMig  bool   `json:"kv_no_migration,omitempty"`
 	Query2 bool   `json:"query2,omitempty"`
 	NoIL   bool   `json:"no_interleave,omitempty"`
+	// QueryMatrix evaluates the QueryPayments option matrix (matrix_test.go) in every
+	// distinct state of the space; Side marks a small space that runs first, on the
+	// side budget (so that the large spaces cannot starve it).
+	// KV selects the key-value backend under the KVStore: "" = bbolt, "sqlite" = the
+	// sqlite-backed kvdb (only in the binary of the kvsqlite target).
+	KV          string `json:"kv_backend,omitempty"`
+	QueryMatrix bool `json:"query_matrix,omitempty"`
+	Side        bool `json:"side,omitempty"`
+	// MatrixDepth, if non-zero, limits the matrix to the states whose shortest history
+	// has at most that many operations.
+	MatrixDepth int `json:"matrix_depth,omitempty"`
 }
 
 func (s Space) worldOpts() worldOpts {
-	return worldOpts{query: s.Query, nh: len(s.RegIDs), sqlCfg: s.SQLCfg, noMig: s.NoMig, query2: s.Query2}
+	return worldOpts{query: s.Query, nh: len(s.RegIDs), sqlCfg: s.SQLCfg, noMig: s.NoMig, query2: s.Query2, kvKind: s.KV}
 }
 
 func (s Space) hashesSorted() []string {
@@ -137,7 +148,7 @@ func spaces(thorough bool) []Space {
 				RegIDs: map[string][]uint64{"h0": ids(1, 2), "h1": ids(3)}, ResIDs: map[string][]uint64{"h0": ids(1, 2), "h1": ids(3)},
 				Amts: []string{"H"}, Kinds: []string{"m"}, Reasons: []int{0},
 				DelAll: allDel, Reopen: true, Query: true, Depth: 5,
-				SQLCfg: "tiny", NoMig: true, Query2: true, NoIL: true,
+				SQLCfg: "tiny", NoMig: true, Query2: true, NoIL: true, QueryMatrix: true, MatrixDepth: 3, Side: true,
 			},
 			{ // pages of two / IN-batches of one: the page is exactly full with the two
 				// payments, their shared data is loaded in two batches
@@ -145,7 +156,17 @@ func spaces(thorough bool) []Space {
 				RegIDs: map[string][]uint64{"h0": ids(1, 2), "h1": ids(3)}, ResIDs: map[string][]uint64{"h0": ids(1), "h1": ids(3)},
 				Amts: []string{"H"}, Kinds: []string{"m"}, Reasons: []int{0},
 				DelAll: [][2]int{{0, 0}, {1, 1}}, Query: true, Depth: 4,
-				SQLCfg: "batch1", Query2: true, NoIL: true,
+				SQLCfg: "batch1", Query2: true, NoIL: true, QueryMatrix: true, Side: true,
+			},
+			{ // the other route shapes and every optional persisted field: one-hop
+				// routes, AMP shards (AMP record, own payment hash, hop / route level
+				// custom records, metadata, first-hop amount), three-hop blinded paths;
+				// SQL shared data loaded in IN-batches of one item (per hop, per record)
+				Name:   "single-rich",
+				RegIDs: map[string][]uint64{"h0": ids(1, 2)}, ResIDs: map[string][]uint64{"h0": ids(1, 2)},
+				Amts: []string{"H", "V"}, Kinds: []string{"S", "A", "B"}, Reasons: []int{0},
+				DelAll: [][2]int{{0, 1}}, Reopen: true, Query: true, Depth: 4,
+				SQLCfg: "tiny", NoIL: true, Side: true,
 			},
 		}
 	}
@@ -156,14 +177,28 @@ func spaces(thorough bool) []Space {
 			RegIDs: map[string][]uint64{"h0": ids(1, 2), "h1": ids(3)}, ResIDs: map[string][]uint64{"h0": ids(1, 2), "h1": ids(3)},
 			Amts: []string{"H"}, Kinds: []string{"m"}, Reasons: []int{0},
 			DelAll: allDel, Reopen: true, Query: true, Depth: 6,
-			SQLCfg: "batch1", NoMig: true, Query2: true, NoIL: true,
+			SQLCfg: "batch1", NoMig: true, Query2: true, NoIL: true, QueryMatrix: true, Side: true,
+		},
+		{
+			Name:   "single-rich",
+			RegIDs: map[string][]uint64{"h0": ids(1, 2, 3)}, ResIDs: map[string][]uint64{"h0": ids(1, 2, 3)},
+			Amts: []string{"H", "V"}, Kinds: []string{"S", "A", "B", "m"}, Reasons: []int{0},
+			DelAll: [][2]int{{0, 1}, {0, 0}}, Reopen: true, Query: true, Depth: 5,
+			SQLCfg: "tiny", NoIL: true, Side: true,
+		},
+		{ // the rich kinds on two payments, default SQL query configuration
+			Name:   "pair-rich",
+			RegIDs: map[string][]uint64{"h0": ids(1, 2), "h1": ids(3)}, ResIDs: map[string][]uint64{"h0": ids(1, 2), "h1": ids(3)},
+			Amts: []string{"H"}, Kinds: []string{"A", "B"}, Reasons: []int{0},
+			DelAll: [][2]int{{0, 1}, {0, 0}}, Reopen: true, Query: true, Depth: 5,
+			NoIL: true, QueryMatrix: true, Side: true,
 		},
 		{
 			Name:   "pair-tiny-pages",
 			RegIDs: map[string][]uint64{"h0": ids(1, 2), "h1": ids(3)}, ResIDs: map[string][]uint64{"h0": ids(1, 2), "h1": ids(3)},
 			Amts: []string{"H", "V"}, Kinds: []string{"m"}, Reasons: []int{0},
 			DelAll: allDel, Reopen: true, Query: true, Depth: 6,
-			SQLCfg: "tiny", NoMig: true, Query2: true, NoIL: true,
+			SQLCfg: "tiny", NoMig: true, Query2: true, NoIL: true, QueryMatrix: true, Side: true,
 		},
 		{
 			Name:   "single-records",
@@ -305,6 +340,13 @@ func runSpace(run *evid.Run, sp Space, st *Stats, pool *sqlPool, deadline time.T
 					break
 				}
 			}
+			// QueryPayments option matrix (read-only; matrix_test.go)
+			if sp.QueryMatrix && (sp.MatrixDepth == 0 || len(hist) <= sp.MatrixDepth) {
+				w.queryMatrix()
+				if w.dead != "" {
+					return
+				}
+			}
 			// Restart probe. A re-instantiated store reports the same state, so the
 			// canonical key cannot tell a cold store object from a warm one and the
 			// search never continues *behind* a `reopen`. The only in-memory state of
@@ -373,18 +415,24 @@ func envInt(name string, def int) int {
 func TestC16(t *testing.T) {
 	run := evid.Start("C16", "model_checking")
 	if rp := os.Getenv("VERIF_REPLAY"); rp != "" {
-		os.Exit(replayFile(run, rp, false))
+		os.Exit(replayFile(run, rp, false, false))
 	}
 	// separate budgets: the sequential exploration, then the determinism re-check and
 	// the transaction-boundary pass get their own (deadlines only stop exploration)
-	budget, ilBudget := 120*time.Second, 40*time.Second
+	// (the small "side" spaces run first on a budget of their own: on a loaded machine
+	// the large spaces use up theirs, and the side spaces must not be starved)
+	budget, ilBudget, sideBudget := 120*time.Second, 40*time.Second, 45*time.Second
 	if run.Thorough() {
-		budget, ilBudget = 19*time.Minute, 150*time.Second
+		budget, ilBudget, sideBudget = 14*time.Minute, 150*time.Second, 5*time.Minute
 	}
 	if n := envInt("VERIF_BUDGET_S", 0); n > 0 {
 		budget = time.Duration(n) * time.Second
 	}
-	deadline := time.Now().Add(budget)
+	if n := envInt("C16_SIDE_BUDGET_S", 0); n > 0 {
+		sideBudget = time.Duration(n) * time.Second
+	}
+	sideDeadline := time.Now().Add(sideBudget)
+	var deadline time.Time // of the main spaces: set when the first of them starts
 	if pf := os.Getenv("C16_CPUPROFILE"); pf != "" {
 		if f, err := os.Create(pf); err == nil {
 			_ = pprof.StartCPUProfile(f)
@@ -421,13 +469,32 @@ func TestC16(t *testing.T) {
 		samples    []any
 	)
 	agg.Exhaustive = true
+	// side spaces first (in the listed order), then the main spaces
+	ordered := make([]Space, 0, len(sps))
 	for _, sp := range sps {
-		if time.Now().After(deadline) {
+		if sp.Side {
+			ordered = append(ordered, sp)
+		}
+	}
+	for _, sp := range sps {
+		if !sp.Side {
+			ordered = append(ordered, sp)
+		}
+	}
+	for _, sp := range ordered {
+		dl := sideDeadline
+		if !sp.Side {
+			if deadline.IsZero() {
+				deadline = time.Now().Add(budget)
+			}
+			dl = deadline
+		}
+		if time.Now().After(dl) {
 			caps = append(caps, "deadline before space "+sp.Name)
 			continue
 		}
 		cpu0 := cpuSeconds()
-		r := runSpace(run, sp, st, pool, deadline, workers, &nontrivial, &mu)
+		r := runSpace(run, sp, st, pool, dl, workers, &nontrivial, &mu)
 		cpu := cpuSeconds() - cpu0
 		agg.States += r.res.States
 		agg.Transitions += r.res.Transitions
@@ -549,7 +616,8 @@ func TestC16(t *testing.T) {
 		"rule": "state = canonical report of the read interface (FetchPayment per hash, FetchInFlightPayments, QueryPayments) of the real KVStore, identical on the real SQLStore; " +
 			"transition = one PaymentControl/PaymentWriter call executed on both stores in lock-step, every alphabet operation in every state of depth < bound (BFS, shortest histories); " +
 			"from every distinct state additionally the restart probe (store re-instantiated, InitPayment of each hash, twice); " +
-			"every transition runs: admission clauses against the reference ledger, the transcribed 16-row status table on every reported payment, absorbing-status clauses, refused-op-changes-nothing, ledger==report, returned==stored, in-flight/query listings, KV==SQL (outcome, error class, returned payment, state); " +
+			"every transition runs: admission clauses against the reference ledger, the transcribed 16-row status table on every reported payment, absorbing-status clauses, refused-op-changes-nothing, ledger==report (incl. the digests of all persisted details), returned==stored, in-flight/query listings, KV==SQL (outcome, error class, returned payment, state); " +
+			"in query_matrix spaces every distinct state additionally gets the QueryPayments option matrix; " +
 			"evaluations = store operations executed (both backends, incl. replayed prefixes); distinct_nontrivial = distinct canonical states in which a payment with at least one attempt exists",
 		"exhaustive":                     len(caps) == 0,
 		"caps_hit":                       caps,
@@ -568,8 +636,9 @@ func TestC16(t *testing.T) {
 		"tx_boundary_interleavings":      il.Coverage(),
 	}
 	run.Assumptions = append(run.Assumptions,
-		"universe: 2 payment hashes with different creation info (h0: 1000 msat with payment request; h1: 2^32+1000 msat, blank payment request, first-hop custom records), a re-initiation carries another amount than the record it replaces (1000<->600, 2^32+1000<->1000); attempt ids {0, 2, 2^32+2, 4}; attempt amounts {V, V/2, V/2+1} of the payment's current amount V; two-hop routes with distinct per-hop fields, final-hop records {none, MPP consistent/total-mismatch/address-mismatch, blinded consistent/total-mismatch/missing-total/with-MPP}; failure reasons {0}, {1,5}; histories up to the per-space depth bound",
-		"store options: SQL query configuration {default (pages 100 / batches 250), pages 1 / batches 1, pages 2 / batches 1} (the non-default ones in their own two-payment spaces), KVStore re-instantiated with and without WithNoMigration; QueryPayments observed with {IncludeIncomplete, CountTotal, MaxPayments 100} everywhere and with {complete only}, {Reversed, MaxPayments 1}, {IndexOffset=first, MaxPayments 1} in the two-payment option spaces; not explored: legacy duplicate-payment buckets of the KV store, creation-date filters, Postgres, etcd/sqlite kvdb backends, exhaustion of a 1000-number sequence block",
+		"universe: 2 payment hashes with different creation info (h0: 1000 msat with payment request, created at T; h1: 2^32+1000 msat, blank payment request, two first-hop custom records, created at T+10.5s), a re-initiation carries another amount and a creation time 3 s later than the record it replaces (1000<->600, 2^32+1000<->1000); attempt ids {0, 2, 2^32+2, 4}; attempt amounts {V, V/2, V/2+1} of the payment's current amount V; two-hop routes with distinct per-hop fields, final-hop records {none, MPP consistent/total-mismatch/address-mismatch, blinded consistent/total-mismatch/missing-total/with-MPP}; in the 'rich' spaces additionally one-hop routes, AMP shards (AMP + MPP record, own payment hash, hop-level custom records on both hops incl. an empty value, metadata, route-level first-hop custom records and first-hop amount) and three-hop blinded paths (introduction node, blinded intermediate hop, total on the final hop); resolution details differ per attempt id (HTLC failure reasons 0..3, failure source index 0..3, with and without a wire failure message); failure reasons {0}, {1,5}; histories up to the per-space depth bound",
+		"compared per payment: amount, status, failure reason, derived state, per attempt id / amounts / final-hop record kind / resolution, and digests of everything else the stores persist (creation time at microsecond resolution, payment request, first-hop records; session key, attempt time and hash, every route and hop field; preimage, resolution times, HTLC failure reason / source index / wire message); not varied: LegacyPayload hops, attempts without a hash, legacy duplicate payments",
+		"store options: SQL query configuration {default (pages 100 / batches 250), pages 1 / batches 1, pages 2 / batches 1} (the non-default ones in their own two-payment spaces), KVStore re-instantiated with and without WithNoMigration; QueryPayments observed with {IncludeIncomplete, CountTotal, MaxPayments 100} everywhere and with {complete only}, {Reversed, MaxPayments 1}, {IndexOffset=first, MaxPayments 1} in the two-payment option spaces; in the spaces marked query_matrix every distinct state additionally gets the option matrix Reversed x IncludeIncomplete x MaxPayments{100,1} x IndexOffset{0, s-1, s, s+1 per listed index s} and the creation-date filters {start, end, start=end} x {t-1, t, t+1 per listed creation second t}, all with CountTotal, judged by a reference pagination over the store's own full listing; the KVStore additionally runs on the sqlite-backed kvdb in the kvsqlite target; not explored: legacy duplicate-payment buckets of the KV store, OmitHops, Postgres, etcd/postgres kvdb backends, exhaustion of a 1000-number sequence block",
 		"SQL backend = sqlite (Postgres not available offline); KV backend = bbolt behind crashdb (kvdb.Batch degrades to Update; the free-running target uses raw bbolt and the real Batch path)",
 		"operations that are a single database transaction (measured, see tx_per_operation) are atomic, so their interleavings are the enumerated sequences; multi-transaction operations are interleaved at transaction granularity; concurrent RegisterAttempt on one hash is a documented caller obligation and outside the contract",
 		"states in which a violation was reported are not expanded further",
@@ -590,7 +659,7 @@ func capNote(r seqmc.Result) string {
 }
 
 // replayFile re-runs one replay artefact, narrating every step.
-func replayFile(run *evid.Run, path string, concTarget bool) int {
+func replayFile(run *evid.Run, path string, concTarget, kvTarget bool) int {
 	b, err := os.ReadFile(path)
 	if err != nil {
 		fmt.Printf("INFO cannot read replay: %v\n", err)
@@ -606,6 +675,10 @@ func replayFile(run *evid.Run, path string, concTarget bool) int {
 	}
 	n := 0
 	switch {
+	case (doc.Replay.Space.KV != "") != kvTarget:
+		// cases on the sqlite-backed kvdb are replayed by the "kvsqlite" target (the only
+		// binary that contains that backend), all others by the "seq" / "conc" targets
+		fmt.Printf("INFO %s: not a case of this target, skipped here\n", path)
 	case (doc.Replay.Conc != nil) != concTarget:
 		// sequential / interleaved cases are replayed by the "seq" target, free-running
 		// concurrent cases by the "conc" target (bin/check runs both binaries)
@@ -650,6 +723,12 @@ func replayWith(doc replayDoc, rep reporter, logf func(string, ...any)) int {
 			fmt.Printf("INFO bad step %q: %v\n", a, err)
 			return i
 		}
+	}
+	if doc.Space.QueryMatrix && doc.Inject == nil {
+		if narrate {
+			fmt.Printf("INFO QueryPayments option matrix in the final state\n")
+		}
+		w.queryMatrix()
 	}
 	if narrate {
 		fmt.Printf("INFO final key: %s\n", w.Key())
